@@ -1,13 +1,22 @@
 CFG = dict(
     id="C09", props="Props/C09.v", harness="c09", shims=["c2__cfg--c09.go"],
     trusted_base=[
-        "Go's crypto/tls.X509KeyPair, crypto/x509 AppendCertsFromPEM, crypto/aes.NewCipher (contents of certificates/keys are outside the model: one observed flag `tlsok` per config)",
-        "int is 64 bit (the offset sums of Config.next cannot wrap for inputs that fit in memory)",
-        "the overlay shim c2__cfg--c09.go (reads Config.next and the fields of the built profile through reflection) and harness/c09/cfgx (recover()+watchdog runner)",
+        "Go's crypto/tls.X509KeyPair, crypto/x509 AppendCertsFromPEM, crypto/aes.NewCipher (the CONTENTS of certificates/keys are outside the model: one observed flag `tlsok` per config; "
+        "the slicing that extracts the blobs is modelled)",
+        "int is 64 bit (the offset sums of Config.next - at most 8 + 3*65535 + 255*512 beyond the current offset - cannot wrap for inputs that fit in memory)",
+        "the overlay shim c2__cfg--c09.go (reads Config.next and the fields of the built profile through reflection) and harness/c09/cfgx (recover() + 10 s watchdog runner)",
+        "String() and MarshalJSON() are modelled by their index skeleton (every c[...] / c[a:b] expression and the loop structure), not by the text they produce",
     ],
-    assumptions=["inputs are byte strings (every element in [0,256))", "certificate / key parsing is treated as succeeding in the validate-iff-build theorem, as the property states"],
-    level_text="Theorems over the Gallina model of Config.next/validate/build/Validate/Build/Groups/Group/String/MarshalJSON (c2/cfg/convert.go, config.go, z_json.go) for ALL byte strings: "
-               "next is total and strictly progresses, no entry point panics or runs out of fuel (termination), validate accepts iff build accepts; the model is tied to /repo by running "
-               "every generated byte string through the real entry points (under recover and a watchdog) and through the model inside Coq.",
-    level_note="Proof is about the model (written after the repaired tree); the tie to the code is differential (distribution in the evidence). Trusted: Coq kernel+vm_compute, the harness, Go's TLS/x509/aes parsers. No axioms.",
+    assumptions=[
+        "inputs are byte strings (`bytes c`: every element in [0,256)) of any length",
+        "certificate / key parsing is treated as succeeding (tlsok = true) in the validate-iff-build theorem, as the property states; the no-panic theorems hold for both values of tlsok",
+    ],
+    level_text="Fifteen theorems over the Gallina model of Config.next/validate/build/Validate/Build/Groups/Group/String/MarshalJSON/MarshalBinary (c2/cfg/convert.go, config.go, z_json.go, group.go) "
+               "for ALL byte strings, offsets and group numbers: next is total inside the config, -1 outside, and strictly progresses; no entry point panics (every Go index/slice expression is an explicit "
+               "Panic-producing primitive) or exhausts its loop fuel (= termination); Groups and Group always return a value; validate accepts iff build accepts (certificate/key parsing aside); "
+               "plus three `_refuted` theorems about copies of the pinned tree's expressions (the three defects repaired by fix: commits). The model is tied to /repo by running ~7400 (quick) / ~170k "
+               "(thorough) byte strings (exhaustive short strings over the tag alphabet, every truncation and length-field change of valid configs from every constructor, splices, random) through the "
+               "real entry points under recover()+watchdog and through the same model functions inside Coq (0 disagreements required).",
+    level_note="Proof is about the model (which follows the tree after the three C09 and four C08 fix: commits); the tie to the code is differential (distribution in the evidence). "
+               "Trusted: Coq kernel+vm_compute, the harness and shim, Go's TLS/x509/aes parsers. No axioms (every theorem is closed under the global context).",
 )
